@@ -241,6 +241,15 @@ def oracle(case):
             msgs.append(f"{what} of {s}: {sorted(got)} != reachable set {sorted(want)}")
         if len(set(got)) != len(got):
             msgs.append(f"{what} of {s}: a node is listed twice: {got}")
+    # every other node as well (read from first principles; the tie compares the start node only)
+    for v in range(n):
+        if v == s:
+            continue
+        for adj, what, got in ((pa, "ancestors", [ids(x) for x in nodes[v].ancestors]),
+                               (ch, "descendants", [ids(x) for x in nodes[v].descendants])):
+            want = closure(adj, v)
+            if set(got) != want or len(set(got)) != len(got):
+                msgs.append(f"{what} of {v}: {sorted(got)} != reachable set {sorted(want)} (each once)")
     want_sib = {c for p in pa[s] for c in ch[p] if c != s}
     if set(r["sib"]) != want_sib:
         msgs.append(f"siblings of {s}: {sorted(set(r['sib']))} != other children of its parents {sorted(want_sib)}")
